@@ -10,6 +10,8 @@ CONSTANTS
   Policies = {"RP"}
   NT = 2
   Keys = {"owned"}
+  PartK = 0
+  PartN = 1
 INIT Init
 NEXT Next
 VIEW View
